@@ -257,7 +257,11 @@ func genChain(o hreg.Opts, p chainPlan, mutants bool) (out seqOut) {
 					pr := postRoot(spec, rs.PreBlock, tb, fv, c.GenesisValidatorsRoot, "valid")
 					orc := ComputeOracle(spec, fs, tb, "valid", pr)
 					out.lines = append(out.lines, "pre "+cfgToks+" "+fs.String(),
-						fmt.Sprintf("blk mode=post tag=%s fv=%x %s", tagOf("generator-block-refused:"+rej.Stage), fv[:], flatblock.Dump(spec, tb, orc)), "reset")
+						fmt.Sprintf("blk mode=post tag=%s fv=%x %s", tagOf("generator-block-refused:"+rej.Stage), fv[:], flatblock.Dump(spec, tb, orc)),
+						// a marker the two sides can never agree on (Go: generator-failure, Lean: bad-op): a block the generator
+						// built as valid was refused by the real code. Whether S accepts it is on the line above; if S rejects it
+						// too, the chain library (it signs with zrnt's own domain helpers) and the real code are at odds.
+						fmt.Sprintf("genfail config=%s slot=%d stage=%s", tagOf(p.cfg.ID), rs.Slot, tagOf(rej.Stage)), "reset")
 					stat("chain_aborted", "generated-block-refused-by-real-code")
 					stat("chain_summary", c.Counters.Summary())
 					return
@@ -506,6 +510,8 @@ func execSeq(lines []string) []string {
 					cur, out = p, "pre-ok"
 				}
 			}
+		case strings.HasPrefix(t, "genfail "):
+			out = "generator-failure"
 		case strings.HasPrefix(t, "blk "):
 			kv, rest := flat.KV(t)
 			if len(rest) == 1 && rest[0] == "blk" && cur != nil {
